@@ -298,6 +298,59 @@ recv_rest_impl!(server_half_recv_rest, ServerRecvHalf);
 recv_rest_impl!(client_recv_rest, ClientStream);
 recv_rest_impl!(client_half_recv_rest, ClientRecvHalf);
 
+/// only the body (until None) / only the trailers: for applications that split the stream between the two
+macro_rules! recv_body_impl {
+    ($name:ident, $ty:ty) => {
+        pub async fn $name(s: &mut $ty, o: &Shared<ExchangeObs>) -> bool {
+            loop {
+                match s.recv_data().await {
+                    Ok(Some(mut b)) => {
+                        let mut g = o.borrow_mut();
+                        g.recv.data_chunks += 1;
+                        while b.has_remaining() {
+                            let c = b.chunk().to_vec();
+                            b.advance(c.len());
+                            g.recv.body.extend_from_slice(&c);
+                        }
+                    }
+                    Ok(None) => {
+                        o.borrow_mut().recv.saw_end_of_body = true;
+                        return true;
+                    }
+                    Err(e) => {
+                        o.borrow_mut().recv.error = Some(("recv_data".into(), err_info(&e)));
+                        return false;
+                    }
+                }
+            }
+        }
+    };
+}
+
+macro_rules! recv_trailers_impl {
+    ($name:ident, $ty:ty) => {
+        pub async fn $name(s: &mut $ty, o: &Shared<ExchangeObs>) -> bool {
+            match s.recv_trailers().await {
+                Ok(t) => {
+                    let mut g = o.borrow_mut();
+                    g.recv.trailers = Some(t.map(|m| by_name(&m)));
+                    g.recv.finished = true;
+                    true
+                }
+                Err(e) => {
+                    o.borrow_mut().recv.error = Some(("recv_trailers".into(), err_info(&e)));
+                    false
+                }
+            }
+        }
+    };
+}
+
+recv_body_impl!(server_recv_body, ServerStream);
+recv_body_impl!(client_recv_body, ClientStream);
+recv_trailers_impl!(server_half_recv_trailers, ServerRecvHalf);
+recv_trailers_impl!(client_half_recv_trailers, ClientRecvHalf);
+
 macro_rules! send_rest_impl {
     ($name:ident, $ty:ty) => {
         /// send_data for every piece, optional trailers, finish
